@@ -36,9 +36,7 @@ func vfE5Opts(dir string) *Options {
 	if os.Getenv("VERIF_LOG") != "" {
 		opts.LogLevel = LOG_WARN
 	}
-	opts.TCPAddress = "127.0.0.1:0"
-	opts.HTTPAddress = "127.0.0.1:0"
-	opts.HTTPSAddress = "127.0.0.1:0"
+	opts.TCPAddress, opts.HTTPAddress, opts.HTTPSAddress = vfLoop3()
 	opts.DataPath = dir
 	opts.StatsdPrefix = ""
 	opts.QueueScanInterval = time.Hour
